@@ -175,7 +175,43 @@ def ev_grid(case, rec):
                 rec.fail('inverse grid convergence differs from the exact projection (sign: grid bearing = azimuth + gamma)',
                          site='convert:grid2geo:gridconv', observed=r[3], expected=float(og[j]), tol=TOL_G, case=one, coords=co)
             rec.outcome(('bad-' if bad else 'ok-') + ('continued' if co['continued'] else 'own-side'))
+            if j == 1 and north == case['norths'][1]:
+                call_dimensions(rec, case, one, co, z, east, north, hemi, ell, prj, r)
     rec.sample({'case': dict(case, norths=case['norths'][:2])})
+
+
+def call_dimensions(rec, case, one, co, z, east, north, hemi, ell, prj, r):
+    """the same conversion requested (a) with the hemisphere word in other spellings - a spelling is either rejected with an
+    exception or means the hemisphere it names - and (b) with the ellipsoid / projection given as other objects of the same
+    meaning (instance of a subclass, copies, pickle round trip: must behave identically; an object of another class carrying the
+    same fields: rejected or identical).  'Those of the projection and ellipsoid requested in the call.'"""
+    for sp in (hemi.lower(), hemi.upper(), hemi.swapcase(), hemi[0], hemi[0].lower(), ' %s ' % hemi, hemi + '\n', hemi.lower() + 'ern',
+               hemi[:3], hemi[:4].upper()):
+        st, r2 = rec.call(grid2geo, z, east, north, sp, ell, prj)
+        rec.nontriv(('spelling', case['ell'], case['prj'], z, sp))
+        if st == 'ok' and tuple(r2) != tuple(r):
+            rec.fail('the hemisphere spelled %r is accepted but not read as %s' % (sp, hemi), site='convert:grid2geo:hemisphere-spelling',
+                     observed=list(r2), expected=list(r), case=one, coords=dict(co, spelling=sp))
+            rec.outcome('spelling-bad')
+        else:
+            rec.outcome('spelling-' + ('accepted' if st == 'ok' else 'rejected'))
+    st0, f0 = rec.call(geo2grid, r[0], r[1], z, ell, prj)
+    forms = [('ellipsoid:' + nm, E, prj, strict) for nm, E, strict in cfg.ell_object_forms(case['ell'])]
+    if case['prj'] not in ('isg', 'isg2'):
+        forms += [('projection:' + nm, ell, P, strict) for nm, P, strict in cfg.prj_object_forms(case['prj'])]
+    for nm, E, P, strict in forms:
+        for fn_, args, base in ((grid2geo, (z, east, north, hemi, E, P), ('ok', r)), (geo2grid, (r[0], r[1], z, E, P), (st0, f0))):
+            st, r2 = rec.call(fn_, *args)
+            rec.nontriv(('objform', case['ell'], case['prj'], z, nm, fn_.__name__))
+            same = st == base[0] and (st != 'ok' or tuple(r2) == tuple(base[1]))
+            if not same and (strict or st == 'ok'):
+                rec.fail('%s gives a different result when the %s is given as another object of the same meaning (%s)'
+                         % (fn_.__name__, nm.split(':')[0], nm.split(':')[1]), site='convert:%s:object-form' % fn_.__name__,
+                         observed=r2 if st != 'ok' else list(r2), expected=list(base[1]) if base[0] == 'ok' else base[1], case=one,
+                         coords=dict(co, form=nm))
+                rec.outcome('objform-bad')
+            else:
+                rec.outcome('objform-ok' if same else 'objform-rejected')
 
 
 # --- two threads at DIFFERENT positions / ellipsoids / projections at the same time ----------
